@@ -136,10 +136,16 @@ fn caller(q0: QueuingMetricSink, rx: Receiver<Cmd>, tx: Sender<String>) {
             },
             Cmd::Drop(h) => match handles.get_mut(h).and_then(|x| x.take()) {
                 None => "nohandle".to_string(),
-                Some(q) => match catch_unwind(AssertUnwindSafe(move || drop(q))) {
-                    Ok(_) => "ok".to_string(),
-                    Err(_) => "panic".to_string(),
-                },
+                Some(q) => {
+                    let t0 = Instant::now();
+                    match catch_unwind(AssertUnwindSafe(move || drop(q))) {
+                        // a drop never waits for the worker or the wrapped sink: it is a counter decrement
+                        // and, for the last handle, one store and one try_send
+                        Ok(_) if t0.elapsed() >= Duration::from_millis(100) => "slow".to_string(),
+                        Ok(_) => "ok".to_string(),
+                        Err(_) => "panic".to_string(),
+                    }
+                }
             },
             Cmd::Flush(h) => match handles.get(h).and_then(|x| x.as_ref()) {
                 None => "nohandle".to_string(),
@@ -368,7 +374,7 @@ impl Run {
             "d" => {
                 let h: usize = rest.parse().unwrap_or(usize::MAX);
                 let r = self.producer(Cmd::Drop(h));
-                if r == "ok" {
+                if r == "ok" || r == "slow" {
                     self.live[h] = false;
                 }
                 r
@@ -385,6 +391,11 @@ impl Run {
             "t" => {
                 let h: usize = rest.parse().unwrap_or(usize::MAX);
                 self.producer(Cmd::SinkStats(h))
+            }
+            "w" => {
+                // idle time: nothing is due, nothing may happen
+                std::thread::sleep(Duration::from_millis(rest.parse().unwrap_or(0)));
+                "ok".to_string()
             }
             "k" | "x" | "p" | "z" => {
                 if !self.inside {
@@ -481,8 +492,9 @@ fn run_line(line: &str) -> Option<String> {
             let (all, obs) = run_queue(Some(0), f[1].parse().unwrap_or(0), &ops);
             Some(format!("queue0 {} {} => {}", f[1], if all.is_empty() { "-".to_string() } else { all.join(",") }, obs))
         }
-        "qburst" if f.len() == 5 => {
-            let r = run_burst(f[1].parse().unwrap_or(1), f[2].parse().unwrap_or(2), f[3].parse().unwrap_or(1), f[4].parse().unwrap_or(1));
+        "qburst" if f.len() == 5 || f.len() == 6 => {
+            let prefill = f.get(5).and_then(|x| x.parse().ok()).unwrap_or(0);
+            let r = run_burst(f[1].parse().unwrap_or(1), f[2].parse().unwrap_or(2), f[3].parse().unwrap_or(1), f[4].parse().unwrap_or(1), prefill);
             Some(format!("{} => {}", line, r))
         }
         "qlatency" if f.len() == 2 => Some(format!("{} => {}", line, run_latency(f[1].parse().unwrap_or(1)))),
@@ -593,7 +605,7 @@ fn run_stress(cap: Option<usize>, threads: usize, per: usize) -> String {
 
 /// worker parked inside the wrapped sink; `threads` producers released together, each trying
 /// `per` emits: exactly `cap` must be accepted in every round (the capacity is never exceeded)
-fn run_burst(cap: usize, threads: usize, per: usize, rounds: usize) -> String {
+fn run_burst(cap: usize, threads: usize, per: usize, rounds: usize, prefill: usize) -> String {
     for round in 0..rounds {
         let (etx, erx) = unbounded();
         let (gtx, grx) = unbounded();
@@ -604,6 +616,12 @@ fn run_burst(cap: usize, threads: usize, per: usize, rounds: usize) -> String {
         match erx.recv_timeout(Duration::from_millis(2000)) {
             Ok(Ev::Enter(_, _)) => {}
             _ => return "worker-did-not-start".to_string(),
+        }
+        // fill the queue up to `prefill` first (one thread), so that the burst meets a nearly full queue
+        for i in 0..prefill {
+            if q.emit(&format!("f{}", i)).is_err() {
+                return format!("capacity-{}-refused-metric-{}-of-the-prefill", cap, i);
+            }
         }
         let barrier = Arc::new(std::sync::Barrier::new(threads));
         let mut hs = Vec::new();
@@ -624,12 +642,12 @@ fn run_burst(cap: usize, threads: usize, per: usize, rounds: usize) -> String {
         let accepted: usize = hs.into_iter().map(|h| h.join().unwrap_or(0)).sum();
         let queued = q.queued();
         // let everything through and shut down
-        for _ in 0..(accepted + 2) {
+        for _ in 0..(accepted + prefill + 2) {
             let _ = gtx.send(Out::Ok);
         }
         drop(q);
-        if accepted != cap {
-            return format!("capacity-{}-accepted-{}-in-round-{}-queued-{}", cap, accepted, round, queued);
+        if accepted + prefill != cap {
+            return format!("capacity-{}-accepted-{}-in-round-{}-queued-{}", cap, accepted + prefill, round, queued);
         }
     }
     "ok".to_string()
@@ -724,6 +742,11 @@ fn emit_case(out: &mut impl Write, cap: Option<usize>, handler: bool, ops: &[Str
         *count += 1;
         return;
     }
+    emit_case_here(out, cap, handler, ops, count)
+}
+
+/// run the case in this process whatever the shard (`count` only selects the constructor here)
+fn emit_case_here(out: &mut impl Write, cap: Option<usize>, handler: bool, ops: &[String], count: &mut u64) {
     // 0: builder without handler, 3: QueuingMetricSink::with_capacity / ::from, 1 / 2: builder with handler
     // (capacity first / handler first)
     let hmode: u8 = if !handler { if (*count / 2) % 2 == 0 { 0 } else { 3 } } else { 1 + ((*count / 2) % 2) as u8 };
@@ -923,6 +946,7 @@ fn main() {
     let shard0 = SHARD_K.load(Ordering::Relaxed) == 0;
     let mut rng = Rng::new(env_seed());
     let mut count = 0u64;
+    let mut extra = 1u64; // cases run by shard 0 only: not part of the sharded index
     backpressure(&mut out, &mut count);
     for ops in ["e0:6130,e0:6131,k,s0,d0", "c0,e1:6130,p,e0:6131,x3,d0,d1", "d0", "e0:6130,d0,k"] {
         if !shard0 {
@@ -930,7 +954,7 @@ fn main() {
         }
         if let Some(l) = run_line(&format!("queue0 1 {}", ops)) {
             writeln!(out, "{}", l).unwrap();
-            count += 1;
+            extra += 1;
         }
     }
     let bursts: Vec<(usize, usize, usize, usize)> = if tier == "quick" {
@@ -944,14 +968,51 @@ fn main() {
         }
         if let Some(l) = run_line(&format!("qburst {} {} {} {}", cap, t, per, rounds)) {
             writeln!(out, "{}", l).unwrap();
-            count += 1;
+            extra += 1;
         }
+    }
+    // large capacities (the documented 512 * 1024 included), nearly full when the burst arrives
+    let big: Vec<(usize, usize, usize)> = if tier == "quick" {
+        vec![(100, 98, 40), (4097, 4095, 30), (5000, 4997, 30), (70000, 69998, 5), (524288, 524286, 2)]
+    } else {
+        vec![(100, 98, 800), (4097, 4095, 400), (5000, 4997, 400), (70000, 69998, 60), (524288, 524286, 20), (1 << 20, (1 << 20) - 3, 5)]
+    };
+    for (cap, prefill, rounds) in big {
+        if !shard0 {
+            break;
+        }
+        if let Some(l) = run_line(&format!("qburst {} 4 2 {} {}", cap, rounds, prefill)) {
+            writeln!(out, "{}", l).unwrap();
+            extra += 1;
+        }
+    }
+    // a long run of panics (the worker is respawned every time), and idle periods between metrics
+    if shard0 {
+        let storm = if tier == "quick" { 1100 } else { 12000 };
+        let mut ops: Vec<String> = Vec::new();
+        for i in 0..storm {
+            ops.push(format!("e0:{}", mname(0, i)));
+            ops.push("p".to_string());
+        }
+        ops.push(format!("e0:{}", mname(0, storm)));
+        ops.push("k".to_string());
+        ops.push("s0".to_string());
+        emit_case_here(&mut out, None, false, &ops, &mut extra);
+
     }
     if shard0 {
         if let Some(l) = run_line(&format!("qdroprace {}", if tier == "quick" { 300 } else { 5000 })) {
             writeln!(out, "{}", l).unwrap();
-            count += 1;
+            extra += 1;
         }
+    }
+    // idle periods between metrics (long enough for a 5 s / 30 s idle time-out in the worker to fire); on the
+    // last shard, which has the least other work
+    if SHARD_K.load(Ordering::Relaxed) + 1 == SHARD_N.load(Ordering::Relaxed) {
+        let idle = if tier == "quick" { 5600 } else { 31000 };
+        let ops: Vec<String> = vec![format!("e0:{}", mname(0, 0)), "k".into(), format!("w{}", idle), format!("e0:{}", mname(0, 1)), "k".into(), "c0".into(),
+            "d0".into(), format!("w{}", idle / 4), format!("e1:{}", mname(1, 0)), "k".into(), "s1".into()];
+        emit_case_here(&mut out, Some(2), true, &ops, &mut extra);
     }
     for cap in [1usize, 4] {
         if !shard0 {
@@ -959,7 +1020,7 @@ fn main() {
         }
         if let Some(l) = run_line(&format!("qlatency {}", cap)) {
             writeln!(out, "{}", l).unwrap();
-            count += 1;
+            extra += 1;
         }
     }
     if tier == "quick" {
